@@ -55,4 +55,5 @@ registry! {
     c31::C31,
     c32::C32,
     c33::C33,
+    c34::C34,
 }
